@@ -39,23 +39,9 @@
 #undef ITEM
 
 /* ---- shape of a real doubly linked list with at most three members ------
- * H  = address of the list head node, n = number of members (ghost scalar),
- * N0..N2 = addresses of the member link nodes.  Precondition form: every link
- * field gets exactly one pointer predicate (scalar guard first). */
-#define VP_PTR_IS(p, tgt) __CPROVER_pointer_in_range_dfcc((tgt), (p), (tgt))
-#define VP_LINK2(p, c, ta, tb) (((c) && VP_PTR_IS(p, ta)) || (!(c) && VP_PTR_IS(p, tb)))
-#define VP_LINK4(p, c0, t0, c1, t1, c2, t2, t3)                           \
-	(((c0) && VP_PTR_IS(p, t0)) || (!(c0) && (c1) && VP_PTR_IS(p, t1)) || \
-	    (!(c0) && !(c1) && (c2) && VP_PTR_IS(p, t2)) ||                   \
-	    (!(c0) && !(c1) && !(c2) && VP_PTR_IS(p, t3)))
-/* forward and backward links of list (H; N0, N1, N2)[0..n) */
-#define VP_LIST3_LINKS(H, n, N0, N1, N2)                                  \
-	(VP_LINK2((H)->ln_next, (n) == 0, (H), (N0)) &&                       \
-	    VP_LINK4((H)->ln_prev, (n) == 0, (H), (n) == 1, (N0), (n) == 2, (N1), (N2)) && \
-	    ((n) < 1 || (VP_LINK2((N0)->ln_next, (n) == 1, (H), (N1)) && VP_PTR_IS((N0)->ln_prev, (H)))) && \
-	    ((n) < 2 || (VP_LINK2((N1)->ln_next, (n) == 2, (H), (N2)) && VP_PTR_IS((N1)->ln_prev, (N0)))) && \
-	    ((n) < 3 || (VP_PTR_IS((N2)->ln_next, (H)) && VP_PTR_IS((N2)->ln_prev, (N1)))))
-/* the same shape as a plain (postcondition) predicate */
+ * H = address of the list head node, n = number of members, N0..N2 =
+ * addresses of the member link nodes (plain predicate; the lists themselves
+ * are BUILT by the harness with the real list code, see HOWTO) */
 #define VP_LIST3_IS(H, n, N0, N1, N2)                                     \
 	((H)->ln_next == ((n) == 0 ? (H) : (N0)) &&                           \
 	    (H)->ln_prev == ((n) == 0 ? (H) : (n) == 1 ? (N0) : (n) == 2 ? (N1) : (N2)) && \
